@@ -24,6 +24,7 @@ type Check struct {
 	Shards        int                                    // 0 = default
 	Inst          bool                                   // needs the instrumented (overlay) build
 	Race          bool                                   // needs the -race build
+	ReplayLoose   bool                                   // a replay reproduces when it reports ANY violation (the race detector picks the reported previous access non-deterministically)
 	CaseLimit     time.Duration                          // watchdog: a single guarded case running longer than this is a violation (C10)
 	Crumbs        bool                                   // keep a crash breadcrumb (a worker killed by a fatal runtime error names its case)
 	Extra         func(m *fw.Merged, cov map[string]any) // extra coverage keys
